@@ -128,6 +128,17 @@ TrClone ==
        /\ ObsOk(jit[Ev.g])
        /\ jit' = (Ev.to :> st) @@ jit
 
+(* Clone::clone_from(g <- from): g becomes a copy of `from` without a claim on any pending half *)
+TrCloneFrom ==
+  /\ IsEvent("clone_from") /\ NoPanic /\ Ev.g \in DOMAIN jit /\ Ev.from \in DOMAIN jit
+  /\ Expect("ok", TRUE, Ev.ok)
+  /\ Expect("reads", <<>>, Reads)
+  /\ LET st == [jit[Ev.from] EXCEPT !.half = JA!ClonePend] IN
+       /\ ObsOk(st)
+       /\ Has(Ev, "obs_from") => /\ Expect("source pool", jit[Ev.from].pool, Ev.obs_from.pool)
+                                 /\ Expect("source half", jit[Ev.from].half, Ev.obs_from.half)
+       /\ jit' = [jit EXCEPT ![Ev.g] = st]
+
 (* hooks: overwrite the pool / run the stir step once (C15 extraction) *)
 TrSetPool ==
   /\ IsEvent("set_pool") /\ NoPanic /\ Ev.g \in DOMAIN jit
@@ -142,7 +153,7 @@ TrStdNew == IsEvent("jit_std_new") /\ NoPanic /\ UNCHANGED jit
 
 Init == l = 1 /\ jit = <<>>
 Next == \/ TrReset \/ TrTimer \/ TrNew \/ TrSetRounds \/ TrNextU64 \/ TrNextU32 \/ TrFill \/ TrTimerStats
-        \/ TrTestTimer \/ TrClone \/ TrSetPool \/ TrStir \/ TrDebug \/ TrDrop \/ TrStdNew
+        \/ TrTestTimer \/ TrClone \/ TrCloneFrom \/ TrSetPool \/ TrStir \/ TrDebug \/ TrDrop \/ TrStdNew
 Spec == Init /\ [][Next]_vars
 Accepted ==
   IF TLCGet("stats").diameter - 1 = Len(Rec) THEN TRUE
